@@ -8,7 +8,7 @@
    fitness_t::operator< (proved for the real type by C18).  Only statements
    here; proofs in Evo/EvoProofs.v, Evo/EvoMain.v. *)
 From Coq Require Import ZArith List Bool Arith.
-From VV Require Import Evo.EvoDefs Evo.EvoProofs Evo.EvoMain Evo.TuneDefs Evo.TuneProofs.
+From VV Require Import Evo.EvoDefs Evo.EvoProofs Evo.EvoMain Evo.TuneDefs Evo.TuneProofs Evo.Tune2Proofs.
 Import ListNotations.
 Local Open Scope Z_scope.
 
@@ -127,6 +127,29 @@ Theorem C06_tune_valid_defaults : forall ln cube tid k terms e,
   is_valid true (tune ln cube tid k terms e) = true.
 Proof. exact tune_valid_defaults. Qed.
 Print Assumptions C06_tune_valid_defaults.
+
+(* ---- tuning with environment::reconcile (repair of tune_valid_size_conflict): [tune_rec] ----
+   FULL: every admissible user environment (passes is_valid(false), population
+   not 1 -- the property quantifies over populations of 4 and more) is tuned into
+   an environment that passes is_valid(true); for search, ga_search, de_search
+   and src_search, whatever the libm-dependent population formula returns. *)
+Theorem C06_tune_valid : forall (ln_floor cube_log2 : Z -> Z), (forall r, 8 < r -> 1 <= ln_floor r) ->
+  forall tid k terms e, 0 <= terms -> user_wf e = true -> is_valid false e = true -> individuals e <> 1 ->
+  is_valid true (tune_rec ln_floor cube_log2 tid k terms e) = true.
+Proof. exact tune_rec_valid. Qed.
+Print Assumptions C06_tune_valid.
+
+Theorem C06_tune_rec_fills_every_open_parameter : forall (ln_floor cube_log2 : Z -> Z),
+  (forall r, 8 < r -> 1 <= ln_floor r) ->
+  forall k terms e, 0 <= terms -> user_wf e = true -> is_valid false e = true -> individuals e <> 1 ->
+  filled k (tune_rec ln_floor cube_log2 typeid_repaired k terms e) = true.
+Proof. exact tune_rec_fills_repaired. Qed.
+Print Assumptions C06_tune_rec_fills_every_open_parameter.
+
+Theorem C06_tune_rec_keeps_user_settings : forall (ln_floor cube_log2 : Z -> Z) tid k terms e,
+  kept k e (tune_rec ln_floor cube_log2 tid k terms e) = true.
+Proof. exact tune_rec_keeps_user_settings. Qed.
+Print Assumptions C06_tune_rec_keeps_user_settings.
 
 (* ---------------------------------------------------------------- non-vacuity *)
 Module NonVacuity.
